@@ -237,3 +237,8 @@ import cli_sweeps
 register("C13", cli_sweeps.run_c13, cli_sweeps.replay_c13)
 register("C09", cli_sweeps.run_c09, cli_sweeps.replay_c09)
 register("C19", cli_sweeps.run_c19, cli_sweeps.replay_c19)
+
+
+# ---------------------------------------------------------------- C10: static checks
+import c10
+register("C10", c10.run, c10.replay)
